@@ -69,7 +69,7 @@ pub fn run_scheduled(im: &mut Impl, forms: &[Cell], sched: GcSchedule, collect_b
     run.output = im.log.borrow()[out_before..].iter().map(|(k, c)| format!("{}:{:#}", k, c)).collect();
     run.instructions = verif::icount();
     run.collections = verif::gc_count();
-    verif::set_after_gc(None);
+    crate::conform::install_default_audit();
     verif::set_schedule(GcSchedule::Never);
     let g = log.borrow();
     run.audited_states = g.0;
